@@ -133,8 +133,8 @@ PROPS = {
     },
     'C20': {
         'race': True, 'race_mode': True, 'crash_tolerance': 0.6,
-        # many short-lived processes: a shard that dies of a recorded crash loses at most its own 25 cases
-        'tests': [tst('race', 'TestC20', 25, 25, tshards=320, timeout_q=400, timeout_t=600)],
+        # many short-lived processes: a shard that dies of a recorded crash loses at most its own 8-10 cases
+        'tests': [tst('race', 'TestC20', 8, 10, qshards=48, tshards=800, timeout_q=400, timeout_t=600)],
         'env': {'VERIF_FLUSH_EVERY': '5'},
         'rule': "race-instrumented build (-race); projects of 6 fake processes that keep logging, exiting and being restarted by a churn goroutine; op sets of 2-4 operations drawn from {GetProcessesState, GetProcessState, GetProcessInfo, GetProcessLog(+length), GetLogsAndSubscribe/UnSubscribe, GetProjectState, names, Start, Stop, Restart} and, in half of the cases, {Scale, UpdateProject}; each case releases the op set together for 12 rounds, then shuts the project down. Oracle: race-detector reports keyed by the functions of the two innermost process-compose frames (every function that races on the unchanged tree is a recorded finding; a report involving any other function is a violation), supervisor crashes keyed by message class and site, 20 s watchdog on every round and on the final shutdown. Non-trivial = at least one state-changing operation in a set of >= 2; distinct = distinct case JSON",
         'assumptions': ["the race detector only sees interleavings that occur; absence of reports is weak evidence", "identity of a data race is the racy function, not the pair: the set of functions saturates after about 1 000 cases, the set of pairs does not", "shards that die of a recorded crash lose their remaining cases; the run is inconclusive if more than 60% of the shards die"],
